@@ -14,7 +14,7 @@ ID = "C04"
 META = {
     "rule": "every connected multigraph topology (multiset of unordered vertex pairs) on n labelled R^d vertices with at most n+1 edges, n<=3 complete, n=4 (quick: <=4 edges), "
     "thorough n=5 (<=5 edges) x edge flavour pattern (odometry/landmark-with-offset, either orientation, alternating) x d in {2,3} x every non-empty fixed subset "
-    "x initial guess {truth, generic, far 1e6, mixed signs} x information {I, SPD cross terms, cond 1e4} x noise {0, generic}; plus structured families "
+    "x initial guess {truth, generic, far 1e6, mixed signs} x information {I, SPD cross terms, cond 1e4, 1e-10 x SPD} x noise {0, generic}; plus structured families "
     "chain/ring/star/grid/complete with 10, 20, 30 vertices. Oracle: closed-form reduced WLS (Cholesky-whitened lstsq) for poses and chi2. "
     "non-trivial = at least one free vertex and the optimum differs from the initial guess by more than 1e-6",
     "assumptions": ["numpy cholesky/lstsq trusted on <= 90 unknowns", "exhaustive up to 4 (quick) / 5 (thorough) vertices; structured (not exhaustive) families above", "tolerance 1e-7 x (1 + scale)"],
@@ -24,7 +24,7 @@ META = {
 
 FLAVOURS = ("odo_fwd", "odo_rev", "lm_fwd", "lm_rev", "alt_type", "alt_orient")
 INITS = ("truth", "generic", "far", "mixed")
-OMS = ("I", "spd", "ill")
+OMS = ("I", "spd", "ill", "tiny")
 NOISES = ("zero", "generic")
 
 
@@ -82,6 +82,8 @@ def _omega(d, name, k, seed):
         return [[1.0 if i == j else 0.0 for j in range(d)] for i in range(d)]
     if name == "spd":
         return A.spd(d, seed, "c04-%d" % (k % 5))
+    if name == "tiny":  # weak information: gradient entries far below any absolute threshold, same optimum
+        return [[1e-10 * x for x in r] for r in A.spd(d, seed, "c04-%d" % (k % 5))]
     # cond 1e4 with cross terms: R diag(1, 1e-4[, 1e-2]) R^T
     th = 0.6 + 0.1 * (k % 3)
     c, s = math.cos(th), math.sin(th)
@@ -175,7 +177,7 @@ def run_chunk(chunk, tier, seed):
         tops = topologies(n, me)
         single = typ == "exh5"
         if tier == "quick":
-            inits, oms, noises = ("generic", "far"), ("spd", "ill"), (("zero", "generic") if n <= 3 else ("generic",))
+            inits, oms, noises = ("generic", "far"), ("spd", "ill", "tiny"), (("zero", "generic") if n <= 3 else ("generic",))
         elif single:
             inits, oms, noises = ("far",), ("spd",), ("generic",)
         else:
@@ -188,6 +190,8 @@ def run_chunk(chunk, tier, seed):
                     for fixed in _fixed_subsets(n, tier, single):
                         for init in inits:
                             for om in oms:
+                                if tier == "quick" and om == "tiny" and init != "generic":
+                                    continue
                                 for nz in noises:
                                     _do(acc, {"n": n, "d": d, "es": [list(e) for e in es], "fl": fl, "fixed": list(fixed), "init": init, "om": om, "noise": nz, "seed": seed})
     else:
@@ -285,12 +289,13 @@ def _eval_inner(case):
         if not dd <= tol:
             msgs.append("vertex %d after optimize() = %r but the weighted-least-squares optimum is %r (|diff| %.3g > %.3g; %d iterations, converged=%s)" % (i, after[i][2], x.tolist(), dd, tol, res.num_iterations, res.converged))
     sc2 = 1.0 + max(max(abs(c) for c in b[2]) for b in before)
-    tolc = 1e-7 * (1.0 + chi2s) + 1e-18 * sc2 * sc2
+    osc = 1e-10 if case["om"] == "tiny" else 1.0
+    tolc = 1e-7 * (osc + chi2s) + 1e-18 * sc2 * sc2 * osc
     if not abs(res.final_chi2 - chi2s) <= tolc:
         msgs.append("final_chi2 = %.17g but chi2 at the optimum is %.17g" % (res.final_chi2, chi2s))
     else:
         ratio = max(ratio, abs(res.final_chi2 - chi2s) / tolc)
     c2 = float(g.calc_chi2())
-    if not abs(c2 - res.final_chi2) <= 1e-12 * (1.0 + abs(c2)):
+    if not abs(c2 - res.final_chi2) <= 1e-12 * (osc + abs(c2)):
         msgs.append("final_chi2 %.17g differs from calc_chi2() of the returned graph %.17g" % (res.final_chi2, c2))
     return msgs, {"ratio": ratio, "classes": classes, "iters": res.num_iterations, "nontrivial": moved and not all(case["fixed"])}
